@@ -644,6 +644,8 @@ def inline_generators(tree, resolve):
             elts = y.elts
         elif isinstance(y, ast.Call) and isinstance(y.func, ast.Name) and y.func.id[:1].isupper() and not y.keywords:
             elts = y.args           # a record built positionally from the loop variables
+        elif isinstance(y, ast.Name):
+            return chain, y.id      # one value per round: `for x in gen(..)`
         else:
             return None
         if any(isinstance(e, ast.Starred) for e in elts):
@@ -655,6 +657,25 @@ def inline_generators(tree, resolve):
         for blk, i, st in _own_statements(fn):
             if not isinstance(st, ast.For) or st.orelse or not isinstance(st.iter, ast.Call) or not isinstance(st.iter.func, ast.Name):
                 continue
+            # for i, x in enumerate(gen(..), k): a counter next to the loop over gen(..)
+            if st.iter.func.id == 'enumerate' and 1 <= len(st.iter.args) <= 2 and not st.iter.keywords and isinstance(st.iter.args[0], ast.Call) \
+                    and isinstance(st.iter.args[0].func, ast.Name) and isinstance(st.target, ast.Tuple) and len(st.target.elts) == 2 \
+                    and isinstance(st.target.elts[0], ast.Name) and not any(isinstance(n, ast.Break) for n in ast.walk(st)):
+                g0 = resolve(st.iter.args[0].func.id)
+                cnt = st.target.elts[0].id + '__n'
+                if g0 is not None and isinstance(g0, ast.FunctionDef) and g0 is not fn and nest_of(g0) is not None \
+                        and not any(isinstance(n, ast.Name) and n.id == cnt for n in ast.walk(fn)) \
+                        and (len(st.iter.args) == 1 or isinstance(st.iter.args[1], ast.Constant)):
+                    start = st.iter.args[1] if len(st.iter.args) == 2 else ast.Constant(value=0)
+                    init_ = ast.copy_location(ast.Assign(targets=[ast.Name(id=cnt, ctx=ast.Store())], value=start), st)
+                    take = ast.copy_location(ast.Assign(targets=[ast.Name(id=st.target.elts[0].id, ctx=ast.Store())], value=ast.Name(id=cnt, ctx=ast.Load())), st)
+                    step = ast.copy_location(ast.AugAssign(target=ast.Name(id=cnt, ctx=ast.Store()), op=ast.Add(), value=ast.Constant(value=1)), st)
+                    st.target = st.target.elts[1]
+                    st.iter = st.iter.args[0]
+                    st.body[0:0] = [take, step]
+                    blk.insert(blk.index(st), init_)
+                    ast.fix_missing_locations(init_)
+                    ast.fix_missing_locations(st)
             if st.iter.keywords or not all(isinstance(a, ast.Name) for a in st.iter.args):
                 continue
             g = resolve(st.iter.func.id)
@@ -668,6 +689,11 @@ def inline_generators(tree, resolve):
             if len(params) != len(st.iter.args):
                 continue
             tg = st.target.elts if isinstance(st.target, ast.Tuple) else None
+            if isinstance(ynames, str):
+                # a single value per round
+                if not isinstance(st.target, ast.Name):
+                    continue
+                ynames, tg = [ynames], [st.target]
             if tg is None or len(tg) != len(ynames) or not all(isinstance(t, ast.Name) for t in tg):
                 continue
             if any(isinstance(n, ast.Break) for n in ast.walk(st)):
